@@ -57,10 +57,36 @@ def build_base(case):
     m.add_variables({k: fexpr.to_float(Fraction(v)) for k, v in b["vars"]})
     for k, d in b.get("derived", []):
         m.add_derived(k, fn=fexpr.compile_fn(d["e"], len(d["args"])), args=list(d["args"]))
+    raw = dict((k, v) for k, v in b.get("raw", []))
     for k, r in b["rxns"]:
-        m.add_reaction(k, fn=fexpr.compile_fn(r["e"], len(r["args"])), args=list(r["args"]),
-                       stoichiometry={c: int(v) for c, v in r["st"]})
+        st = {c: int(v) for c, v in r["st"]}
+        if k in raw:
+            st = {c: py_coef(spec) for c, spec in raw[k]}  # the coefficients as the user wrote them: int | float | Derived
+        m.add_reaction(k, fn=fexpr.compile_fn(r["e"], len(r["args"])), args=list(r["args"]), stoichiometry=st)
     return m
+
+
+def _two():
+    return 2.0
+
+
+def py_coef(spec):
+    """{"int": n} | {"float": "n/d"} | "derived" -> the Python object"""
+    from mxlpy.model import Derived
+
+    if spec == "derived":
+        return Derived(fn=_two, args=[])
+    if "int" in spec:
+        return int(spec["int"])
+    return fexpr.to_float(Fraction(spec["float"]))
+
+
+def raw_of(case):
+    return dict((k, v) for k, v in case["base"].get("raw", []))
+
+
+def nonint(coefs):
+    return any(spec == "derived" or "float" in spec for _, spec in coefs)
 
 
 def init_arg(case):
@@ -346,9 +372,13 @@ def spec_structure(case):
     lv = lv_of(case)
     maps = dict((k, v) for k, v in case["maps"])
     # build error: first offending mapped reaction in declaration order
+    raw = raw_of(case)
     for name, r in case["base"]["rxns"]:
         if name not in maps:
             continue
+        if name in raw and nonint(raw[name]):
+            # a mapped reaction is unpacked with `v < 0` / `[k] * v`: only Python ints pass, before the map is looked at
+            return {"err": ["TypeError"]}, None
         subs, prods = unpack(r["st"])
         ns = sum(lv.get(c, 0) for c in subs)
         np_ = sum(lv.get(c, 0) for c in prods)
@@ -562,6 +592,7 @@ def model_request(case):
                      "derived": case["base"].get("derived", []),
                      "rxns": [[k, {"args": r["args"], "e": r["e"], "st": r["st"]}] for k, r in case["base"]["rxns"]]},
             "states": case.get("states", []),
+            "raw": case["base"].get("raw", []),
             "queries": [q[:3] for q in case.get("queries") or []]}
 
 
@@ -641,7 +672,7 @@ def judge_case(ctx, case, R, M):
                 ctx.judge(dict(sub, queries=[q]), r, r if sq is None else sq, mq, what=what)
             ctx.judge(sub, R["isos" + key], spec_isos(case), None if M is None else M["isos"], what="get_isotopomers()" + key)
     # 0b. the vocabulary of the theorems (nSub, nProd, extOf) against the real helpers
-    if "dims" in R:
+    if "dims" in R and not any(nonint(v) for v in raw_of(case).values()):
         ctx.judge(sub, R["dims"], R["dims"], None if M is None else M["dims"],
                   what="substrate / product label positions and external label string (real helpers vs model)")
     # 1. accepted / rejected with the right exception class
@@ -754,6 +785,43 @@ def exhaustive_cases(tier):
             out.append(single_rxn_case(subs, prods, labels, ident[:-1] + [N]))
     out += wide_cases(tier)
     out += negative_index_cases(tier)
+    out += raw_coefficient_cases()
+    return out
+
+
+def raw_coefficient_cases():
+    """coefficients that are not Python ints on a mapped reaction (every kind x maps that are fine / short / out of
+    range: the TypeError comes before the map is looked at), explicit ints (nothing changes), and the order of errors
+    when an earlier reaction is rejected first; seed-independent"""
+    out = []
+    kinds = {
+        "ints": lambda c, v, first: {"int": v},
+        "floats": lambda c, v, first: {"float": str(v)},
+        "one_float": lambda c, v, first: {"float": str(v)} if first else {"int": v},
+        "half": lambda c, v, first: {"float": f"{2 * v + 1}/2"} if first else {"int": v},
+        "derived": lambda c, v, first: "derived" if first else {"int": v},
+        "derived_last": lambda c, v, first: {"int": v} if first else "derived",
+    }
+    shapes = [(["A"], ["B"], {"A": 1, "B": 1}), (["A", "A"], ["B"], {"A": 1, "B": 2}), (["A"], ["B", "C"], {"A": 2, "B": 1, "C": 1}),
+              ([], ["B"], {"B": 2})]
+    for subs, prods, labels in shapes:
+        N = max(sum(labels[c] for c in subs), sum(labels[c] for c in prods))
+        ident = list(range(N))
+        for m in (ident, ident[::-1], ident[:-1], ident + [N], [-1] * N):
+            for kind, f in kinds.items():
+                case = single_rxn_case(subs, prods, labels, m)
+                st = case["base"]["rxns"][0][1]["st"]
+                case["base"]["raw"] = [["v", [[c, f(c, v, i == 0)] for i, (c, v) in enumerate(st)]]]
+                out.append(case)
+                # a second mapped reaction declared first and rejected for its own reason: its error wins
+                two = single_rxn_case(subs, prods, labels, m)
+                two["base"]["raw"] = case["base"]["raw"]
+                two["base"]["pars"].append(["q", "1"])
+                two["base"]["rxns"].insert(0, ["u", {"args": ["q"] + [c for c in list(labels)[:1]], "e": prod_expr(2),
+                                                      "st": [[list(labels)[0], -1]]}])
+                two["maps"].insert(0, ["u", []])
+                two["ma"].append("u")
+                out.append(two)
     return out
 
 
@@ -942,6 +1010,23 @@ def random_case(rng):
     }
     if rng.random() < 0.3:
         case["queries"] = gen_queries(rng, case)
+    if maps and rng.random() < 0.05:
+        # coefficients as a user may write them: floats (-1.0), a Derived, or plain ints listed explicitly
+        name = rng.choice(maps)[0]
+        st = dict(rxns)[name]["st"]
+        kind = rng.choice(["float", "float1", "derived", "int"])
+        coefs = []
+        hit = rng.randrange(len(st))
+        for i, (c, v) in enumerate(st):
+            if kind == "int":
+                coefs.append([c, {"int": v}])
+            elif kind == "float":
+                coefs.append([c, {"float": str(v)}])
+            elif i == hit:
+                coefs.append([c, "derived" if kind == "derived" else {"float": f"{2 * v + 1}/2"}])
+            else:
+                coefs.append([c, {"int": v}])
+        case["base"]["raw"] = [[name, coefs]]
     return case
 
 
